@@ -117,8 +117,17 @@ def iso_fragments(ctx):
         return
     key = f'{HOST}.send_iso_sdu'
     loop = next((s for s in fn.body if isinstance(s, ast.While)), None)
-    if loop is None or norm(loop.test) != 'bytes_remaining':
-        R.bad(rule, key + ' | loop', 'fragment loop `while bytes_remaining` not found', p.loc(fn))
+    if loop is None:
+        R.bad(rule, key + ' | loop', 'fragment loop not found', p.loc(fn))
+        return
+    # one packet at least (an empty SDU is a complete SDU of length 0), then until nothing remains
+    last = loop.body[-1] if loop.body else None
+    exits_when_done = isinstance(last, ast.If) and not last.orelse and len(last.body) == 1 and isinstance(last.body[0], ast.Break) and (norm(last.test), True) in [('not bytes_remaining', True), ('bytes_remaining == 0', True), ('bytes_remaining <= 0', True)]
+    breaks = [n for n in ast.walk(loop) if isinstance(n, ast.Break)]
+    do_while = isinstance(loop.test, ast.Constant) and loop.test.value is True and exits_when_done and len(breaks) == 1
+    R.check(do_while, rule, key + ' | loop', 'runs once, then while bytes remain (test after the advance): an empty SDU still produces its packet',
+            'the fragment loop is not "at least once, until nothing remains"' + (': `while bytes_remaining` sends nothing for an empty SDU although the sequence number advances' if norm(loop.test) == 'bytes_remaining' else ''), p.loc(loop))
+    if not do_while and norm(loop.test) != 'bytes_remaining':
         return
     d = {dotted(n.targets[0]): n.value for n in loop.body if isinstance(n, ast.Assign) and len(n.targets) == 1 and isinstance(n.targets[0], ast.Name)}
     nd = {k: norm(v) for k, v in d.items()}
